@@ -1,9 +1,9 @@
 CONSTANTS
   Emit = TRUE
   MaxPerturbed = 1
-  Constructs <- C
-  ExtraBreakFills <- WaExtra
-  StrictBounds = FALSE
+  Constructs <- CZ
+  ExtraBreakFills <- WzExtra
+  StrictBounds = TRUE
 INIT Init
 NEXT Next
 INVARIANT ModelOK
